@@ -111,8 +111,8 @@ CHECKS = {
 
 # rules added during the seeded-variant rounds (DESIGN.md 8.3, 8.7)
 EXTRA = {
- "C01": " Also: totality on the domain (no failure exit of EncodeEncrypt/encryptMsg/DecodeDecrypt/decryptMsg is reachable for a fully keyed SA, an encodable message and a genuine datagram; length tests refuted by linear arithmetic over the SK body shape IV|>=1 block|checksum) and Reset-before-Write typestate of calculateIntegrity. The plain-codec rule set of C03 is included under C01.codec.* (header and inner chain pass through the plain codec on both ends).",
- "C03": " Also: nested records behind an interface field occupy the same span under the same conditions on both sides; the decoder rejects on the value of a message field only where the encoder refuses that value too or the field is structural (value-guard agreement); AKA' words-to-octets scaling evaluated without wrap-around for the domain. Every pointer a decoder collects in a loop points to an object allocated in the same iteration (decoded list elements are distinct objects).",
+ "C01": " Also: totality on the domain (no failure exit of EncodeEncrypt/encryptMsg/DecodeDecrypt/decryptMsg is reachable for a fully keyed SA, an encodable message and a genuine datagram; length tests refuted by linear arithmetic over the SK body shape IV|>=1 block|checksum) and Reset-before-Write typestate of calculateIntegrity. The plain-codec rule set of C03 is included under C01.codec.* (header and inner chain pass through the plain codec on both ends), and so are the PKCS#7 padding rules and the AES-CBC Encrypt / Decrypt shape rules of C06 / C10 (the protected round trip runs through them).",
+ "C03": " Also: nested records behind an interface field occupy the same span under the same conditions on both sides; the decoder rejects on the value of a message field only where the encoder refuses that value too or the field is structural (value-guard agreement); AKA' words-to-octets scaling evaluated without wrap-around for the domain. Every pointer a decoder collects in a loop points to an object allocated in the same iteration (decoded list elements are distinct objects). A decoder's constant test of the remaining input length lets the shortest in-domain encoding of the record at that cursor pass (min_octets of the reference layout).",
  "C05": " Also: nested-dispatch span vs the reference; AKA' words-to-octets scaling without wrap-around. Record stride: a decoder walking a list advances by exactly the element's extent in the reference layout on every path round the loop; the encoder emits no octets that are neither field nor nested record; EAP-AKA' decoder and setter cases are classified by the meaning they give octets 2-3 (bit count / octet count / reserved) and compared with a per-type reference table.",
  "C06": " Also: totality on the domain of the protect/unprotect path (an empty inner payload list and every legal length are accepted).",
  "C07": " Also: totality on the domain: every failure exit of GenerateKeyForIKESA / NewIKESAKey (through PrfPlus and NewCrypto) is unreachable for nonces and secrets of 1..512 octets and a complete registered suite. DH public values / shared secrets have the fixed-length left-padded shape SKEYSEED is computed from (dh-secret-shape).",
@@ -121,7 +121,7 @@ EXTRA = {
  "C12": " Also: nested-dispatch conditions agree on both sides; the AKA' encoder pads to the declared attribute length. Every pointer a decoder collects in a loop points to an object allocated in the same iteration. EAP-AKA' reference classes (meaning of octets 2-3 per attribute type) for canonical datagrams of an independent encoder.",
  "C14": " Also: the setter accepts every value size of the domain (RAND/AUTN/MAC 16, KDF 2, RES 4..16, KDF_INPUT 0..300, CHECKCODE 0/20/32: no error exit reachable, by linear arithmetic per instance); nested-dispatch; value-guard agreement; words-to-octets scaling. EAP-AKA' reference classes: octets 2-3 are a bit count exactly for AT_RES / AT_KDF_INPUT, zero for the reserved types, on the decoder and the setter side.",
  "C15": " Also: totality on the domain: no failure exit of CalcEapAkaPrimeAtMAC (through initMAC/SetAttr/setAttr with a 16-octet value) is reachable for any subtype, attribute subset and key. EAP-AKA' reference classes (which attribute types carry a bit count in octets 2-3) on the decoder and setter side, so that packets of an independent encoder are read as sent. The decoder stores every attribute it consumes (map update dominates every back edge of the attribute loop); the setter keeps a copy of the value.",
- "C18": " Also: the reader argument of io.ReadFull counts as written (stateful readers), and an interface method implemented outside the module invoked on a global-derived object is reported unless the callee is in the frozen read-only table.",
+ "C18": " Also: the reader argument of io.ReadFull counts as written (stateful readers), and an interface method implemented outside the module invoked on a global-derived object is reported unless the callee is in the frozen read-only table. Key derivation and Diffie-Hellman never write through, copy into or append onto memory derived from a []byte parameter (also after it was kept in the SA object).",
  "C19": " Also: a builder passes memory it did not allocate to no module function with a non-empty mod-set (the container is only extended).",
  "C20": " Also: header bookkeeping fields are stored on every path before they are read (no value left by an earlier Decode/Encode reaches the output). Protect builds the new payload list from nil (no append into the old list's storage).",
  "C02": " The crash-freedom proof covers every function reachable from DecodeDecrypt (header parser, outer chain walker and every payload decoder run before the checksum is verified). A datagram that ends behind a header announcing an Encrypted payload is refused (no success return of DecodeDecrypt reachable with an empty payload list and NextPayload = SK).",
